@@ -67,6 +67,9 @@ pub struct Faults {
     /// in-memory file: create fails / write fails (disk full)
     pub file_create_err: u32,
     pub file_write_err: u32,
+    /// a file create / write stalls (slow or busy disk) for up to disk_stall_max_ms
+    pub disk_stall: u32,
+    pub disk_stall_max_ms: u32,
 }
 
 #[derive(Clone, Debug, PartialEq)]
@@ -431,10 +434,10 @@ pub struct World {
     pub outcome: Option<Outcome>,
 }
 
-/// (name of the task being run, scheduler steps so far) of the simulation on the main thread,
-/// mirrored for an OS-thread watchdog: a task that never comes back from a resume is spinning
-/// inside the code under test without touching any seam.
-pub static RUNNING_TASK: std::sync::Mutex<(String, u64)> = std::sync::Mutex::new((String::new(), 0));
+/// A 128-byte slot (shared memory set up by the driver before it forks an execution) into which
+/// the name of the task being resumed and the step count are mirrored, so that the parent can say
+/// which task an execution that never came back was spinning in. Layout: [len u8][name ..119][steps u64 le].
+pub static SPIN_SLOT: std::sync::atomic::AtomicPtr<u8> = std::sync::atomic::AtomicPtr::new(std::ptr::null_mut());
 
 thread_local! {
     static WORLD: RefCell<Option<World>> = const { RefCell::new(None) };
@@ -1763,10 +1766,16 @@ fn resume_task(cos: &mut [Option<Co>], t: TaskId, how: Resume) {
         w.tasks[t].state = TState::Runnable;
     });
     YIELDERS.with(|ys| YIELDER.with(|c| c.set(ys.borrow()[t])));
-    if let Ok(mut g) = RUNNING_TASK.try_lock() {
+    let slot = SPIN_SLOT.load(std::sync::atomic::Ordering::Relaxed);
+    if !slot.is_null() {
         let (name, steps) = with(|w| (format!("{}/{}", w.procs[w.tasks[t].proc].name, w.tasks[t].name), w.steps));
-        g.0 = name;
-        g.1 = steps;
+        let b = name.as_bytes();
+        let n = b.len().min(119);
+        unsafe {
+            *slot = n as u8;
+            std::ptr::copy_nonoverlapping(b.as_ptr(), slot.add(1), n);
+            std::ptr::copy_nonoverlapping(steps.to_le_bytes().as_ptr(), slot.add(120), 8);
+        }
     }
     let mut res = co.resume(how);
     if killing {
